@@ -183,6 +183,7 @@ struct Exec {
       pid_t pid = fork();
       if (pid < 0) sim_die("fork failed");
       if (pid == 0) {
+        child_prologue(false);
         g_expect_exit = 1;
         {
           simseam::LibDomain d;
@@ -801,8 +802,8 @@ void Exec::do_eval(const Step& st, const Client& cl, int ev, int depth) {
     if (supported) {
       if (a.k < 0) a.k = -a.k;
       // non-negative orders only (negative ones are outside the documented domain of a provided evaluator): usually 0..8,
-      // sometimes anything up to 400, and exactly st.k when the order walk of SWEEP asks for it
-      if (eval_abs_k) a.k = a.k % 401;
+      // sometimes anything up to 400, and exactly st.k (up to 4000) when the order walk of SWEEP asks for it
+      if (eval_abs_k) a.k = a.k % 4001;
       else if ((st.u >> 24) % 10 == 7) a.k = (int)((st.u >> 28) % 401);
       else a.k %= 9;
     } else {
